@@ -20,7 +20,7 @@ MANIFEST = dict(
         "(offset>=0), monomial kernels are PSD, PSD-ness is closed under non-negative scaling, weighted sums, products (Schur), "
         "normalisation and sub-ranges, hence every kernel expression with admissible parameters is PSD and every assembled regularised "
         "Gram matrix is PosSemidef (kernel_psd: arbitrary exp, Gaussian/ARD leaves by hypothesis; kernel_psd_equalDim / gram_psd_equalDim: real exp, data of equal dimension, Gaussian (gamma>=0) and ARD (gamma_t>=0) PROVED via the exponential series and closedness of the PSD cone - no hypothesis left); linear kernel also PSD as a quadratic form over "
-        "any ordered field. ModelKernel (affine model), SubrangeKernel and PointSetKernel are covered (symmetry, block=single, Gram assembly; "
+        "any ordered field. ModelKernel (affine model; chains with state: see the end), SubrangeKernel and PointSetKernel are covered (symmetry, block=single, Gram assembly; "
         "PSD for Model/Subrange). Derivatives (HasDerivAt): the model of weightedParameterDerivative / weightedInputDerivative of the Gaussian, "
         "polynomial, linear and ARD (log-gamma) kernels, of ScaledKernel, and the log-weight derivative of WeightedSumKernel are the true "
         "derivatives of the weighted sum of kernel values for all batches and coefficients. The model is tied to the real classes by an "
@@ -75,7 +75,31 @@ MANIFEST = dict(
         "RE-USED OUTPUT OBJECTS (op stale, every case): both derivative calls of every kernel into pre-filled gradient objects must return what "
         "a call into a fresh object returns (calculateKernelMatrixParameterDerivative re-uses one blockGradient). "
         "Two genuine defects found: F-C05-6 gaussian-task-kernel-stale-matrix and F-C05-7 pointset-parameter-derivative-not-cleared (open, "
-        "patches in findings_proposed/)."),
+        "patches in findings_proposed/). "
+        "MODELKERNEL OVER MODELS WITH STATE (branch str3-c05; every run, both tiers): ModelKernel is exercised over ConcatenatedModel chains - "
+        "1-3 dense layers (linear / rectifier / tanh / logistic), element-wise NeuronLayers, softmax / normalizer row layers, frozen layers - whose "
+        "State holds the hidden responses of ONE batch (ops mnet / mn <op>, harness builds the real LinearModel<..,Act> / NeuronLayer / "
+        "ConcatenatedModel / ModelKernel objects). Model: Model/KernelChain.lean modelKernelBlock / modelKernelParamGrad = the code of "
+        "ModelKernelImpl (both batches through the model, base kernel's parameter derivative, its input derivative for BOTH arguments, the model's "
+        "backward pass of each batch through ITS OWN hidden responses) over the C04 chain model (Chain.evalB / Chain.backward). Theorems "
+        "(Props/C05c.lean, HasDerivAt over R): modelKernel_weight_derivative_correct / modelKernel_offset_derivative_correct - for every weight / "
+        "offset of every optimised dense layer anywhere in a chain of any length, the entry of modelGradX1 + modelGradX2 is the derivative of "
+        "sum_ij c_ij k(g(x_i), g(z_j)) for ALL batch sizes B1 != B2 and batches X1 != X2 (modelKernel_curve_hasDerivAt: chain rule through both "
+        "arguments from the proved backward pass, by uniqueness of derivatives), for every base kernel whose weighted sum is differentiable along "
+        "curves with its two weightedInputDerivative matrices as gradient (KernelInputDerivs) - proved for the Gaussian kernel "
+        "(gauss_kernelInputDerivs, all points / gamma / coefficients) and instantiated on a four-layer chain. Correspondence: chains of linear / "
+        "rectifier layers with integer weights over exact base kernels EXACTLY (Rat) and bit for bit (Float): single, block, stateful block, feature "
+        "distance, Gram over partitions, pderiv on blocks x1 != x2 of DIFFERENT sizes, gderivx, flags, setParameterVector in the middle (kernel | "
+        "model parameters, frozen layers skipped); smooth chains (tanh / logistic / softmax / normalizer, any base kernel incl. Gaussian / ARD / sums) "
+        "oracle-only: finite differences of the weighted sum of SINGLE evaluations w.r.t. every kernel and model parameter (dcheck, 2e-5 relative, "
+        "blocks with x1 != x2 and different sizes), Gram-level derivative batched vs unbatched (gderiv, 1e-9), block = single (4 ulp / 1e-13). "
+        "STATE RE-USE (new op reuse, every kernel family): ONE State object serves two consecutive stateful evaluations on different pairs of "
+        "batches of different shapes with derivative calls after each; the second round must return bit for bit what a fresh State returns "
+        "(kernel block, parameter and input derivative). "
+        "THREAD-COUNT SWEEP (new op gramt / mt 3, oracle only, every composite kernel family incl. PointSetKernel, MklKernel, MultiTaskKernel "
+        "(a ProductKernel), ModelKernel): calculateRegularizedKernelMatrix and calculateMixedKernelMatrix over 24-64 points in 5-30 batches of "
+        "alternating sizes, assembled with 2, 3, 4 and 1 OpenMP threads on the ONE shared kernel object, every entry compared with single "
+        "evaluations (bitwise; 4 ulp with NormalizedKernel)."),
   note=TRUST + "floating-point rounding is outside the theorems (exact-arithmetic statements; 'no negative eigenvalues beyond rounding' "
        "is checked numerically by the harness oracle only); Gaussian/ARD PSD-ness is proved for data of equal dimension (the C++ SIZE_CHECK) and is a hypothesis only in the variant for points of unequal length; derivative theorems cover "
        "Gaussian/polynomial/linear/ARD/scaled, the weighted-sum log-weights and (Props/C05b) monomial input, sub-range parameter, ModelKernel kernel-parameter part, adaptive sub-kernels of sums, and the Gram helper (unequal point dimensions are not accepted by the code: a Data<RealVector> batch is a matrix). "
@@ -83,6 +107,11 @@ MANIFEST = dict(
        "CORRESPONDENCE + FINITE DIFFERENCES ONLY (modelled and compared exactly, no HasDerivAt theorem): NormalizedKernel::weightedInputDerivative, SubrangeKernelWrapper::weightedInputDerivative (column embedding), WeightedSumKernel::weightedInputDerivative, the LinearModel part of ModelKernel's parameter derivative (needs joint differentiability of the base kernel in both arguments), PointSetKernel::weightedParameterDerivative. "
        "The exact correspondence of the composed derivative code needs exactly representable values: Gaussian/ARD leaves inside composed kernels, non-power-of-two weights and NormalizedKernel on general points are judged by the finite-difference oracle (2e-5) and the stale-output oracle only. "
        "GaussianTaskKernel: PSD-ness of the task table (a Gaussian of RKHS distances of mean elements) is not proved (multiTask_psd takes it as hypothesis; the harness checks eigenvalues of MultiTaskKernel Gram matrices); MklKernel is exercised with two vector components (the fusion machinery is generic in the tuple); MissingFeaturesKernelExpansion is not reached (C07/C18 own the SVM models); CSvmDerivative is C07's. "
+       "ModelKernel over chains: the theorems are stated on index functions for a base kernel given as a function with the KernelInputDerivs hypothesis (proved for the Gaussian); "
+       "that Kern.inputGradA of EVERY kernel expression satisfies it is not proved (the partial-derivative theorems of Props/C05(b) + the exact ideriv correspondence + finite differences tie it); "
+       "rectifier / fast-sigmoid layers carry the NoKink hypothesis of the chain theorems; smooth chains are not compared bit for bit (the model's matrix products are BLAS calls: 1-ulp differences were measured) but by the toleranced oracles; "
+       "exact chains are limited to two dense layers of width <= 2 with weights in {-1,0,1} (values must stay exactly representable); dropout layers and nested ConcatenatedModels inside a ModelKernel are not generated (C04 owns them). "
+       "Thread sweep: a data race is detected only if it manifests in one of the 7 assemblies per op (about 250 gramt ops per quick run; no TSan build here - C20 has one); "
        "State re-use: the derivative functions accept a State computed for other batches silently (parameter derivative = the old batches' derivative; probed, see findings_proposed/C05.md) - the documented contract, honoured by all library callers; not a theorem, not checked per run. "
        "the Gaussian derivative correspondence is "
        "bit-exact on 1x1 blocks only (ARD: all blocks), PointSetKernel with inexact base values only on singleton sets (summation order not modelled); "
@@ -106,7 +135,7 @@ MANIFEST = dict(
 
 FINISH = dict(level="proof",
               rule="a case = kernel expression (random composition, depth <= 3, dyadic parameters) + integer points + ops "
-                   "(single / block / sblock / fdist / fdistb / flags / gram over batch partitions / mixed / pderiv / ideriv / dcheck / stale / gderiv / gderivx / unitvar / kexp+kx / skip; task / tbatch / tsetparams / tsetgamma / mt; mkl + mk <op>) "
+                   "(single / block / sblock / fdist / fdistb / flags / gram over batch partitions / mixed / pderiv / ideriv / dcheck / stale / reuse / gramt / gderiv / gderivx / unitvar / kexp+kx / skip; task / tbatch / tsetparams / tsetgamma / mt; mkl + mk <op>; mnet + mn <op>) "
                    "+ in-place reconfigurations (setfactor / setparams / adaptall) with observations after each; non-trivial = composed kernel "
                    "(depth >= 1) or a Gram op with >= 2 batches; distinct = distinct op text")
 
